@@ -1,6 +1,42 @@
-/- C08 — statements are being added as the proofs land (see DESIGN.md §6). -/
+/-
+  C08 — comments and whitespace never change meaning.
+  Proved so far: the order facts about the generated rule table that trivia handling relies
+  on (string literals are tried before the comment rules; the block-comment end rule is
+  lazy), and — from the generic lexer theorems — that trivia pieces never contribute
+  tokens.  The full round-trip `lex (render toks tr₁) = lex (render toks tr₂)` is tied by
+  correspondence (see DESIGN.md §6 C08, stated there as not yet proved).
+-/
+import Pyab.Proofs.LexNoSkip
+import Pyab.Generated.LexRules
 namespace Pyab.Properties
+open Pyab
 
-theorem C08_placeholder : True := trivial
+def ruleIndex (name : String) (rules : List LexRule) : Option Nat :=
+  rules.findIdx? (·.name == name)
+
+/-- **table obligation**: `STRING_LITERAL` is tried before every comment rule, so comment
+    markers inside a string literal stay in the literal -/
+theorem C08_strings_before_comments :
+    (do let s ← ruleIndex "STRING_LITERAL" Generated.lexState0.rules
+        let b ← ruleIndex "BLOCK_COMMENT_START" Generated.lexState0.rules
+        let l ← ruleIndex "inline_comment" Generated.lexState0.rules
+        pure (decide (s < b ∧ s < l))) = some true := by decide +kernel
+
+/-- **table obligation**: inside a block comment the end rule is tried first and is lazy
+    (it stops at the first `*/` of the line) -/
+theorem C08_block_end_first_and_lazy :
+    (match Generated.lexState1.rules with
+     | r :: _ => r.name == "BLOCK_COMMENT_END" &&
+         (match r.re with
+          | .seq (.rep 0 none false .any) (.seq (.lit 42) (.lit 47)) => true
+          | _ => false)
+     | [] => false) = true := by decide +kernel
+
+/-- the tokens of an accepted text are exactly its token pieces: trivia pieces (white space,
+    comments) contribute nothing -/
+theorem C08_trivia_contributes_no_tokens (text : String) (out : LexOut)
+    (h : lexFull Generated.lexSpec text = .ok out) :
+    out.toks.map (·.kind) = out.pieces.filterMap (fun p => match p with | .token k _ => some k | _ => none) :=
+  lexFull_tokens_from_pieces Generated.lexSpec text out h
 
 end Pyab.Properties
